@@ -35,10 +35,28 @@ def uninstall_hash_seam():
     _RANK.clear()
 
 
+_RUN = {"base": 0, "world": 0, "salt": 0}
+
+
+def begin_run(run_seed):
+    """Ranks get high bits derived from (run seed, index of the world inside the run): the low bits -- which
+    decide set iteration order -- are untouched, but two tensors of different worlds or runs executed in
+    the same process never share a hash (code under test that keeps tensors in dicts/caches across calls
+    relies on hash/eq being consistent with identity, as it is for real tensors)."""
+    _RUN["base"] = (int(run_seed) % (1 << 17)) * 128
+    _RUN["world"] = 0
+    _RUN["salt"] = _RUN["base"] << 36
+
+
+def next_world():
+    _RUN["world"] += 1
+    _RUN["salt"] = (_RUN["base"] + (_RUN["world"] % 128)) << 36
+
+
 def set_ranks(pairs):
     """pairs: iterable of (tensor, rank). Ranks must be unique over everything registered."""
     for t, r in pairs:
-        _RANK[id(t)] = int(r)
+        _RANK[id(t)] = int(r) + _RUN["salt"]
 
 
 def clear_ranks():
